@@ -18,7 +18,7 @@ import re
 
 from decimal import Decimal
 
-from datetime import datetime
+from datetime import datetime, timezone
 
 from IPy import IP
 from dateutil.parser import parse
@@ -792,12 +792,17 @@ class DataType(object):
         normalized = set()
         for value in values:
             if isinstance(value, datetime):
-                normalized.add(self.format_utc_datetime(value))
+                try:
+                    normalized.add(self.format_utc_datetime(value))
+                except (OverflowError, ValueError):
+                    raise EDXMLEventValidationError('Invalid datetime value: %s' % repr(value))
             elif isinstance(value, str):
                 try:
                     normalized.add(self.format_utc_datetime(parse(value)))
                 except Exception:
                     raise EDXMLEventValidationError('Invalid datetime string: %s' % value)
+            else:
+                raise EDXMLEventValidationError('Invalid datetime value: %s' % repr(value))
         return normalized
 
     def _normalize_number(self, values):
@@ -1564,19 +1569,10 @@ class DataType(object):
         Returns:
           str: EDXML datetime string
         """
-        try:
-            return date_time.strftime('%Y-%m-%dT%H:%M:%S.%fZ')
-        except ValueError:
-            # Dates before year 1900 are not supported by strftime.
-            date_time = date_time.isoformat()
-            # The isoformat method yields a string formatted like
-            #
-            # YYYY-MM-DDTHH:MM:SS.mmmmmm
-            #
-            # unless the fractional part is zero. In that case, the
-            # fractional part is omitted, yielding invalid EDXML. Also,
-            # the UTC timezone is represented as '+00:00' rather than 'Z'.
-            if date_time[19] != '.':
-                return date_time[:19] + '.000000Z'
-            else:
-                return date_time[:26] + 'Z'
+        if date_time.utcoffset() is not None:
+            date_time = date_time.astimezone(timezone.utc)
+        # Note that strftime does not zero pad years before 1000 on all platforms.
+        return '%04d-%02d-%02dT%02d:%02d:%02d.%06dZ' % (
+            date_time.year, date_time.month, date_time.day,
+            date_time.hour, date_time.minute, date_time.second, date_time.microsecond
+        )
